@@ -280,11 +280,23 @@ def make_callback(rt, c, cb, slot_getter=None):
                 _depth.reset(tok)
             return finish(n, machine)
 
-        def method(self, *, event=None, source=None, target=None, state=None, machine=None):
-            return body(machine, event, source, target, state, self)
+        if cb.get("defer"):
+            # a plain callable that RETURNS an awaitable (e.g. a coroutine function behind an async-unaware decorator):
+            # not a coroutine function for the library, but what it returns must be awaited on the async engine
+            async def dbody(machine, event, source, target, state, owner=None):
+                return body(machine, event, source, target, state, owner)
 
-        def function(*, event=None, source=None, target=None, state=None, machine=None):
-            return body(machine, event, source, target, state)
+            def method(self, *, event=None, source=None, target=None, state=None, machine=None):
+                return dbody(machine, event, source, target, state, self)
+
+            def function(*, event=None, source=None, target=None, state=None, machine=None):
+                return dbody(machine, event, source, target, state)
+        else:
+            def method(self, *, event=None, source=None, target=None, state=None, machine=None):
+                return body(machine, event, source, target, state, self)
+
+            def function(*, event=None, source=None, target=None, state=None, machine=None):
+                return body(machine, event, source, target, state)
 
     else:
 
@@ -377,6 +389,9 @@ def normalize_def(d):
         if cb["evcb"]:
             cb["ret"] = "none"     # an event used as action returns what the (queued) send returns: None
             cb["coro"] = False
+        if cb.get("style") == "property":
+            cb["coro"] = False     # a property getter is never a coroutine function
+            cb["yields"] = 0
         cb["name"] = cb_name(c, cb)
     d.setdefault("evstyle", "param")
     d.setdefault("strict", False)
